@@ -337,7 +337,14 @@ pub fn run(seed: u64, run: u64) -> Report {
     if !accepted {
         counters.push(("generator_rejected".to_string(), 1));
     }
-    let log = format!("{:?}", outs.iter().map(|o| o.as_ref().map(|s| digest64(s.as_bytes())).map_err(|e| e.clone())).collect::<Vec<_>>());
+    // Implicit component names hash the absolute location (the scratch directory of the
+    // process tier differs between workers): canonicalise them for the digest only.
+    let log = format!(
+        "{:?}",
+        outs.iter()
+            .map(|o| o.as_ref().map(|s| digest64(crate::pipeline::canonicalise_hash_names(s).as_bytes())).map_err(|e| e.clone()))
+            .collect::<Vec<_>>()
+    );
     let violation = v.map(|(oracle, detail)| {
         let min = minimise(&ast, &layout, &scn, pc.as_ref());
         let (v2, outs2) = compare(&min, pc.as_ref());
